@@ -25,6 +25,8 @@ CHECKS = {
     "C04": ("sched", "exploration", "schedule exploration (generated interleavings of sender threads and the loop at enqueue / wake / wake-on-drop / try_recv / re-wake sites) + history PBT + batch-limit family; per-sender FIFO reference", "Per sender delivered == sent-Ok in order exactly once, one Closed after everything and only after every sender is gone, nothing after it, settle points show that no message stays queued without a pending wake-up, blocking sends complete while the loop dispatches (blocked senders detected via /proc, decided by state), queue lengths around the 1024 batch limit drain without external wake-up. Known finding F6 (sync_channel(0)) is listed and steered around.", "as C03; a stranded sender is decided by state (8 further dispatches, every unfinished sender asleep in the kernel, nothing delivered), never by a timeout alone", "DESIGN.md sections 3.4 and 4 C04"),
     "C10": ("sched", "exploration", "schedule exploration (generated interleavings of waker threads against the executor's enqueue / flag swap / eventfd write / flag clear / dequeue / re-wake / drop sites, incl. mid-poll) + batch-limit family + scripted StreamSource", "Scripted non-Send futures: every scheduled future polled, a poll after every wake of a pending task, polls and drops only on the loop thread, each Ready(v) delivered exactly once, every future dropped exactly once when the executor goes (checked before the Scheduler goes), ExecutorDestroyed afterwards; 0..3100 ready tasks drain over consecutive dispatches without external wake-up, scheduling from callbacks and futures; stream items in order, one None, then removal. Known finding F7 (wake in flight while the executor is dropped) is listed and steered around.", "as C03; async-task's own atomics have no yield sites; windows that exist only in changed code have no site either", "DESIGN.md sections 3.4 and 4 C10"),
     "C11": ("sched", "exploration", "schedule exploration (generated interleavings of stop/wakeup/waker.wake against run()/block_on() at every yield site, incl. mid-poll) + bounded-exhaustive DFS of tiny configurations", "Lost wake-ups and lost stops are decided by state: the loop thread provably asleep in the poller with an unserved wake-up / wake over 300 scheduling rounds; stop visible at the loop condition must end the loop; run/block_on return values need a cause.", "as C03; 'promptly' is never measured as a duration", "DESIGN.md sections 3.4 and 4 C11"),
+    "C12": ("timing", "exploration", "property-based testing over dispatch configurations on the real monotonic clock: exact lower bound, 3-times-confirmed upper bound, dead-peer sources, helper-thread wake-ups", "Configurations of timeout class x timer sets x idle/dead-peer sources x optional helper thread; with no event and no wake-up the dispatch must last at least min(timeout, earliest deadline - t_before) exactly (monotonic clock argument), a limiting timer must have fired, zero timeout never blocks, None waits for the helper; oversleep beyond 60 ms only counts when it repeats 3 times.", "lower bound relies on CLOCK_MONOTONIC and hrtimers never firing early; upper bound detects systematic errors only; module written by a sub-agent, reviewed", "DESIGN.md section 4 C12"),
+    "C17": ("asyncio", "exploration", "property-based testing of Async adapter sessions (payload, chunk plans, send-buffer sizes, topologies, dispatch plans) with a byte round-trip oracle, state-based stuck detection and fcntl flag checks", "Five topologies over a socketpair driven by calloop's executor; bytes received == bytes sent in order; a task pending while poll(2) says its fd is ready and dispatches wake nothing is a lost wake (decided by state, 1+3 dispatches); O_NONBLOCK set while adapted and restored afterwards.", "spurious wake-ups are allowed; module written by a sub-agent, reviewed", "DESIGN.md section 4 C17"),
     "C18": ("transient", "exploration", "model-based property-based testing of TransientSource call sequences + bounded-exhaustive enumeration of all protocol-conforming sequences (thorough: up to length 6), kernel epoll table and timer heap as ground truth", "Instrumented fd and timer children under a top-level and a composite parent; reference machine per child (Fresh/Kept/Disabled/Gone); after every step child registration flag == kernel table / timer heap == model; no double register/unregister, no drop while registered, forwarding only from the current child, only Continue/Reregister returned.", "only protocol-conforming sequences are generated (the docs warn about leaks otherwise); module written by a sub-agent, reviewed", "DESIGN.md section 4 C18"),
     "C19": ("signals", "exploration", "model-based property-based testing of signal-mask histories in a single-threaded process (proptest, reference model of mask / pending sets / handler counts)", "Histories of new/add/remove/set/raise/insert/dispatch/drop; after every op the real thread mask, sigpending() and counting handlers are compared with the model; dispatch results compared with pending configured instances incl. siginfo fields.", "single-threaded check process; Linux standard-signal semantics as stated in the module header", "DESIGN.md section 4 C19"),
     "C20": ("pure", "exploration",
@@ -83,6 +85,8 @@ def main():
             {"name": "pure", "path": "harness/src/props", "serves_properties": ["C20"], "kind_free_text": "proptest strategies over inputs + bounded-exhaustive enumeration, run from the check binary with a fixed seed"},
             {"name": "hist", "path": "harness/src/hist", "serves_properties": [i for i in ids if i in CHECKS and CHECKS[i][0] == "hist"], "kind_free_text": "single-thread history machine: interpreter over a real EventLoop with instrumented sources (world.rs) + trace-checking reference monitor (monitor.rs), proptest generation and shrinking, JSON replays"},
             {"name": "sched", "path": "harness/src/sched.rs", "serves_properties": [i for i in ids if i in CHECKS and CHECKS[i][0] == "sched"], "kind_free_text": "deterministic cooperative scheduler over the verif_hooks yield sites: real OS threads, one advanced at a time by a generated schedule, kernel-blocked threads detected via /proc; random (bursty) schedules + stateless DFS"},
+            {"name": "timing", "path": "harness/src/props/c12.rs", "serves_properties": ["C12"], "kind_free_text": "dispatch-duration configurations on the real clock"},
+            {"name": "asyncio", "path": "harness/src/props/c17.rs", "serves_properties": ["C17"], "kind_free_text": "Async adapter session interpreter over socketpairs and calloop's executor"},
             {"name": "transient", "path": "harness/src/props/c18.rs", "serves_properties": ["C18"], "kind_free_text": "TransientSource sequence machine with reference model and exhaustive enumeration"},
             {"name": "signals", "path": "harness/src/props/c19.rs", "serves_properties": ["C19"], "kind_free_text": "single-threaded signal-history machine with a mask/pending/handler model"},
         ],
